@@ -38,6 +38,7 @@ func idInt(nameID string) int {
 }
 
 func checkA(h History) *core.Violation {
+	countCells(h)
 	return onExistingFile(h, runA(h, h.dbMode()), func() *core.Violation { return runA(h, "fresh") })
 }
 
@@ -245,7 +246,11 @@ func compareRestored(w *pvx.World, r *runState, pm *pmodel) *core.Violation {
 	for _, l := range r.lmod {
 		row, ok := gotL[l.Name]
 		if !ok {
-			return core.V("listeners|not-restored|"+l.Kind, "listener %q (%s) was added and not removed but ListenerAll does not return it (rows: %v)", l.Name, l.Kind, rows)
+			sig := "listeners|not-restored|" + l.Kind
+			if kindOf(l) == "https" {
+				sig = "listeners|not-restored|https|" + nameClassOf(l.Name)
+			}
+			return core.V(sig, "listener %q (%s) was added and not removed but ListenerAll does not return it (rows: %v)", clipS(l.Name), kindOf(l), clipS(fmt.Sprint(rows)))
 		}
 		var cfg map[string]any
 		if err := json.Unmarshal([]byte(row["Config"]), &cfg); err != nil {
@@ -283,7 +288,7 @@ func compareRestored(w *pvx.World, r *runState, pm *pmodel) *core.Violation {
 			}{
 				{"Hosts", strings.Join(hs.Hosts, ", ")}, {"HostBind", "127.0.0.1"}, {"HostRotation", hs.Rotation}, {"PortBind", "0"}, {"PortConn", hs.PortConn},
 				{"Headers", strings.Join(hs.Headers, ", ")}, {"Uris", strings.Join(hs.Uris, ", ")}, {"HostHeader", hs.HostHeader}, {"UserAgent", hs.UserAgent},
-				{"Secure", "false"}, {"Proxy Enabled", hs.Proxy},
+				{"Secure", fmt.Sprint(hs.Secure)}, {"Proxy Enabled", hs.Proxy},
 			}
 			if hs.Proxy {
 				checks = append(checks, []struct {
@@ -451,6 +456,10 @@ func genCollidingName(t *rapid.T, fam int, l string) string {
 // genLSpec: fam selects the family of colliding names this history draws most of its
 // listener names (and some pipe names / endpoints) from, so that two of them meet.
 func genLSpec(t *rapid.T, allowHTTP bool, fam int) *LSpec {
+	// KIND x NAME CLASS product (lname_test.go): about a third of the adds
+	if rapid.Uint32().Draw(t, "lproduct")%60 < 20 {
+		return genProductLSpec(t, allowHTTP, fam)
+	}
 	kinds := []string{"smb", "smb", "smb", "smb", "smb", "smb", "smb", "smb", "smb", "ext", "ext", "ext", "ext", "ext", "ext", "ext", "ext", "ext", "ext"}
 	if allowHTTP {
 		kinds = append(kinds, "http")
@@ -625,6 +634,7 @@ type hsum struct {
 	lkinds                                           map[string]bool
 	ledit, lremove, checkin, markalive, lcollide      bool
 	tags                                             map[string]bool
+	cells                                            map[string]bool // listener kind x name class cells and what comes with them (lname_test.go)
 	craftedLast                                      bool
 	restarts                                         int
 	opsAfterRestart, reregUnrestored, reregRestored, newAfterRestart bool
@@ -651,7 +661,7 @@ func numClassOf(s string) string {
 }
 
 func summarizeH(h History) hsum {
-	s := hsum{lkinds: map[string]bool{}, tags: map[string]bool{}}
+	s := hsum{lkinds: map[string]bool{}, tags: map[string]bool{}, cells: map[string]bool{}}
 	if n := len(h.Ops); n > 0 && h.Ops[n-1].T != "" {
 		s.craftedLast = true
 	}
@@ -677,6 +687,7 @@ func summarizeH(h History) hsum {
 	}
 	var lnames []string
 	var lk []string
+	var lsec []bool
 	for _, op := range h.Ops {
 		switch op.K {
 		case "ladd":
@@ -695,8 +706,28 @@ func summarizeH(h History) hsum {
 						s.lcollide = true // two listeners present at the same time whose names meet under an equivalence
 					}
 				}
+				for i, n := range lnames {
+					if n != op.L.Name && sanitised(n) == sanitised(op.L.Name) {
+						s.cells["listener-names-sanitise-to-the-same-string"] = true
+						if lsec[i] && kindOf(*op.L) == "https" {
+							s.cells["two-https-listeners-share-a-certificate-directory"] = true
+						}
+					}
+				}
+				if op.L.NC != "" {
+					// the evidence keeps the 60 most frequent labels only: the full kind x class matrix is
+					// counted into extra.listener_kind_x_name_class (countCells); labels for the HTTPS cells
+					s.cells["listener-kind-x-name-class-product"] = true
+					if kindOf(*op.L) == "https" {
+						s.cells["lcell:https x "+op.L.NC] = true
+					}
+				}
+				if kindOf(*op.L) == "https" {
+					s.cells["listener:https"] = true
+				}
 				lnames = append(lnames, op.L.Name)
 				lk = append(lk, op.L.Kind)
+				lsec = append(lsec, kindOf(*op.L) == "https")
 				s.lkinds[op.L.Kind] = true
 				s.effective++
 			}
@@ -706,6 +737,7 @@ func summarizeH(h History) hsum {
 				i := op.A % len(lnames)
 				lnames = append(lnames[:i], lnames[i+1:]...)
 				lk = append(lk[:i], lk[i+1:]...)
+				lsec = append(lsec[:i], lsec[i+1:]...)
 				s.lremove = true
 				s.effective++
 			}
@@ -870,6 +902,9 @@ func classifyH(h History) core.Class {
 	for tg := range s.tags {
 		cl.Labels = append(cl.Labels, "upd:"+tg)
 	}
+	for c := range s.cells {
+		cl.Labels = append(cl.Labels, c)
+	}
 	add(s.craftedLast && len(s.tags) > 0, "upd:reopen-right-after")
 	add(true, "db:"+h.dbMode())
 	pivL, pivBucket := pivotLabels(h) // piv_test.go: histories with restarts at any point
@@ -959,13 +994,14 @@ func dedup(in []string) []string {
 func TestC10a(t *testing.T) {
 	core.Run(t, core.Spec[History]{
 		Property: "C10", Sub: "a",
-		Rule: "histories of 1-5 registrations followed by 0-25 operations over 1-5 agents (database file, a third each: fresh / created by the current code and opened again / a copy of the committed testdata/golden-schema.db made by the unchanged tree - labels db:fresh|existed|golden; a violation on the golden file only, while its schema differs from a fresh one, is reported as schema|existing-database-differs-from-fresh|<tables>; ids over the whole 32-bit range incl. >= 2^31; metadata strings from {plain, digit-only, leading zeros, exponent-like, hex-like, whitespace-padded, empty, non-ASCII, quotes/SQL, decimal/signed/huge numbers, 300-9000 bytes}): reg, poll, pivot connect/disconnect, COMMAND_CHECKIN with new metadata and key, sleep / kill-date / working-hours callbacks, exit, kill-date, operator mark dead/alive, listener add (SMB, External; HTTP on an ephemeral port at ~1/20 of adds; names, and a third of the pipe names / endpoints, mostly from one per-history family of strings that differ but collide under ASCII/Unicode case, LIKE/glob wildcards vs literal characters, leading/trailing blanks, prefixes, Unicode normalisation or SQL quoting - label listener-names-colliding = two such listeners coexist) / remove / HTTP edit through the operator's DispatchEvent path; about half of the histories also contain one family of crafted updates of one agent (labels upd:*), mostly as the last operations so that the reopen follows at once: BOUNDARY SHIFT - two consecutive updates (key-preserving check-ins, or sleep callbacks) whose rows differ only by characters/digits moved across the boundary of two columns adjacent in the write order of db.AgentUpdate or in agent.AgentInfo (e.g. Username|DomainName bob|'' -> ''|bob, SleepDelay|SleepJitter 1|20 -> 12|0, ProcessName|BaseAddress svc1|23 -> svc|123), everything else incl. LastCallIn byte-identical; SWAP of two same-typed columns; NO-OP update(s) followed by a real one; REVERT A->B->A; each optionally interleaved with repeated identical updates; RESTART operations in the middle (a new Teamserver on the same file restores sessions, links and listeners as Start() does - in (a)/(b) a transcription of its restore loops, in (c) the real Start() in a new process - then the history goes on with registrations of new ids, of restored ids and of ids that were NOT restored because they were inactive, updates, deaths, marks, link and listener changes; several restarts allowed; only performed while every stored link joins two active sessions; labels restart-in-the-middle, restarts:2+, operations-after-restart, re-registration-of-unrestored-inactive-id, new-id-registered-after-restart); then a fresh db.DatabaseNew on the same file read with AgentAll/ParentOf/LinksOf/ListenerAll. Oracle: restored agents == active sessions of the running server, 25 columns equal byte for byte incl. key and IV; ParentOf/LinksOf == the server's Links lists; listener rows == listeners present with every operator-configured field equal. Non-trivial: a death, a link change or a numeric-looking string before the reopen; distinct = (death, link none/add/add+remove, numeric class bucket, listeners none/smb-ext/http/http-edited, colliding names, none/restart/restart+re-registration) ADDED - PIVOT TREES UNDER RESTARTS AT ANY POINT (a quarter of the histories, piv_test.go; label pivot-trees-with-restarts-at-any-point): 3-6 agents, a forest of depth up to 3 built through the real connect path (1-2 registered roots, every other session through the SMB-connect callback of its parent, some registered top-level first and then linked), then 3-14 events aimed by a model of the history at sessions for which they mean something: disconnect of an existing UPPER link (the child has links of its own) or LOWER link, a disconnect reported by a non-parent, death (exit / kill-date / mark dead) of any session, mark alive (preferably of an inactive session), check-in, poll, sleep, registration of an id that has no session in memory (not restored by the last restart), connect of ANY agent below any active session - preferably of a session whose STORED parent has no session in memory since the last restart, and of ids that are not in memory themselves -, listener add/remove, the old conditional restart, and 'restartx' = a restart at ANY point (several per history), i.e. also while a stored link names a session that is stored inactive (the start then restores the child without its parent and leaves the row). Labels: disconnect-of-upper-link, disconnect-of-lower-link, disconnect-reported-by-non-parent, restart-after-upper-link-disconnect, restart-leaves-child-of-unrestored-parent-as-root, reconnect-of-agent-whose-stored-parent-is-not-in-memory (reconnect-path:session-in-memory,stored-parent-not / connect-as-new:stored-parent-not-in-memory), restart-after-reconnect-of-agent-whose-stored-parent-was-not-in-memory, re-parented-after-restart, registration-of-unrestored-id, registration-of-unrestored-parent-with-stored-children, unrestored-id-registers-through-a-pivot, mark-alive-of-inactive-session, death-after-restart, connect-reported-by-inactive-session, restarts-at-any-point:2+, pivot-depth:n. Oracle for these histories (agents, 25 columns, key/IV and listeners as before): after EVERY restart the restored sessions == the sessions active before it, and the parent and the Links of every restored session == the pairs given by the link events of the history (connect(A,B) makes A the one stored parent of B; a disconnect reported by the parent or a death of either end while the server holds the link removes it; a session whose parent is not restored comes back as a root and gets its parent back when the parent is active again at a later start - what the unchanged tree does, followed operation by operation by pmodel, validated against it by TestC10PivModel); TS_Links never holds two rows for one child (signature links|two-rows-for-one-child); the final reopen is compared with the same model (signatures any-point-restart|...). The fingerprint of these histories gets a suffix any-point-restart=<plain | orphan+restart | upper-cut+restart | dangling-reconnect | dangling-reconnect+restart>[+parent-back]",
+		Rule: "histories of 1-5 registrations followed by 0-25 operations over 1-5 agents (database file, a third each: fresh / created by the current code and opened again / a copy of the committed testdata/golden-schema.db made by the unchanged tree - labels db:fresh|existed|golden; a violation on the golden file only, while its schema differs from a fresh one, is reported as schema|existing-database-differs-from-fresh|<tables>; ids over the whole 32-bit range incl. >= 2^31; metadata strings from {plain, digit-only, leading zeros, exponent-like, hex-like, whitespace-padded, empty, non-ASCII, quotes/SQL, decimal/signed/huge numbers, 300-9000 bytes}): reg, poll, pivot connect/disconnect, COMMAND_CHECKIN with new metadata and key, sleep / kill-date / working-hours callbacks, exit, kill-date, operator mark dead/alive, listener add (SMB, External; HTTP on an ephemeral port at ~1/20 of adds; names, and a third of the pipe names / endpoints, mostly from one per-history family of strings that differ but collide under ASCII/Unicode case, LIKE/glob wildcards vs literal characters, leading/trailing blanks, prefixes, Unicode normalisation or SQL quoting - label listener-names-colliding = two such listeners coexist) / remove / HTTP edit through the operator's DispatchEvent path; about half of the histories also contain one family of crafted updates of one agent (labels upd:*), mostly as the last operations so that the reopen follows at once: BOUNDARY SHIFT - two consecutive updates (key-preserving check-ins, or sleep callbacks) whose rows differ only by characters/digits moved across the boundary of two columns adjacent in the write order of db.AgentUpdate or in agent.AgentInfo (e.g. Username|DomainName bob|'' -> ''|bob, SleepDelay|SleepJitter 1|20 -> 12|0, ProcessName|BaseAddress svc1|23 -> svc|123), everything else incl. LastCallIn byte-identical; SWAP of two same-typed columns; NO-OP update(s) followed by a real one; REVERT A->B->A; each optionally interleaved with repeated identical updates; RESTART operations in the middle (a new Teamserver on the same file restores sessions, links and listeners as Start() does - in (a)/(b) a transcription of its restore loops, in (c) the real Start() in a new process - then the history goes on with registrations of new ids, of restored ids and of ids that were NOT restored because they were inactive, updates, deaths, marks, link and listener changes; several restarts allowed; only performed while every stored link joins two active sessions; labels restart-in-the-middle, restarts:2+, operations-after-restart, re-registration-of-unrestored-inactive-id, new-id-registered-after-restart); then a fresh db.DatabaseNew on the same file read with AgentAll/ParentOf/LinksOf/ListenerAll. Oracle: restored agents == active sessions of the running server, 25 columns equal byte for byte incl. key and IV; ParentOf/LinksOf == the server's Links lists; listener rows == listeners present with every operator-configured field equal. Non-trivial: a death, a link change or a numeric-looking string before the reopen; distinct = (death, link none/add/add+remove, numeric class bucket, listeners none/smb-ext/http/http-edited, colliding names, none/restart/restart+re-registration) ADDED - PIVOT TREES UNDER RESTARTS AT ANY POINT (a quarter of the histories, piv_test.go; label pivot-trees-with-restarts-at-any-point): 3-6 agents, a forest of depth up to 3 built through the real connect path (1-2 registered roots, every other session through the SMB-connect callback of its parent, some registered top-level first and then linked), then 3-14 events aimed by a model of the history at sessions for which they mean something: disconnect of an existing UPPER link (the child has links of its own) or LOWER link, a disconnect reported by a non-parent, death (exit / kill-date / mark dead) of any session, mark alive (preferably of an inactive session), check-in, poll, sleep, registration of an id that has no session in memory (not restored by the last restart), connect of ANY agent below any active session - preferably of a session whose STORED parent has no session in memory since the last restart, and of ids that are not in memory themselves -, listener add/remove, the old conditional restart, and 'restartx' = a restart at ANY point (several per history), i.e. also while a stored link names a session that is stored inactive (the start then restores the child without its parent and leaves the row). Labels: disconnect-of-upper-link, disconnect-of-lower-link, disconnect-reported-by-non-parent, restart-after-upper-link-disconnect, restart-leaves-child-of-unrestored-parent-as-root, reconnect-of-agent-whose-stored-parent-is-not-in-memory (reconnect-path:session-in-memory,stored-parent-not / connect-as-new:stored-parent-not-in-memory), restart-after-reconnect-of-agent-whose-stored-parent-was-not-in-memory, re-parented-after-restart, registration-of-unrestored-id, registration-of-unrestored-parent-with-stored-children, unrestored-id-registers-through-a-pivot, mark-alive-of-inactive-session, death-after-restart, connect-reported-by-inactive-session, restarts-at-any-point:2+, pivot-depth:n. Oracle for these histories (agents, 25 columns, key/IV and listeners as before): after EVERY restart the restored sessions == the sessions active before it, and the parent and the Links of every restored session == the pairs given by the link events of the history (connect(A,B) makes A the one stored parent of B; a disconnect reported by the parent or a death of either end while the server holds the link removes it; a session whose parent is not restored comes back as a root and gets its parent back when the parent is active again at a later start - what the unchanged tree does, followed operation by operation by pmodel, validated against it by TestC10PivModel); TS_Links never holds two rows for one child (signature links|two-rows-for-one-child); the final reopen is compared with the same model (signatures any-point-restart|...). The fingerprint of these histories gets a suffix any-point-restart=<plain | orphan+restart | upper-cut+restart | dangling-reconnect | dangling-reconnect+restart>[+parent-back] ADDED - LISTENER KIND x NAME CLASS PRODUCT (about a third of the listener adds, lname_test.go; label listener-kind-x-name-class-product): kind from {smb, ext, http, https = HTTP with Secure=true, for which HTTP.Start() generates an RSA certificate and writes it below <loot>/listener/<name without [^a-zA-Z0-9]>/ BEFORE it announces and stores the listener; HTTPS 3/32 and plain HTTP 2/32 of these adds} drawn independently of the name class from {ascii; sql = the collision families above; no-alnum = no ASCII letter or digit at all: CJK / Cyrillic / Greek / Arabic, punctuation only, blanks only, emoji, mixed; sanitise = names of one per-history base that become the SAME string once everything but [a-zA-Z0-9] is removed (a-b, a_b, a b, ab, a/b, a.b; label listener-names-sanitise-to-the-same-string when two such listeners coexist, two-https-listeners-share-a-certificate-directory); long = 100-400 characters, the sanitised rest <= 255 or > 255 bytes; path = ../x, a/b, .., ., /abs, x\\y, ~/x, x/, //x}; both drawn so that every cell is about equally likely (rapid prefers range ends). Labels lcell:https x <class>, listener:https; because the evidence keeps the 60 most frequent labels only, the whole matrix is counted into extra.listener_kind_x_name_class@<shard> (one key per shard, to be summed; each https x class cell >= 20 per quick run). Oracle unchanged: every listener the server holds after the add (t.Listeners) has its row with every operator-configured field incl. Secure, nothing else has; a missing HTTPS listener is reported as listeners|not-restored|https|<name-sanitises-to>255-bytes | name-without-ascii-letter-or-digit | long-name | name-with-path-separators | other-name>",
 		Gen:   genA, Check: checkA, Classify: classifyH,
 		Assumptions: []string{
 			"reference for 'what had happened' is the state the running server holds in memory when the last operation returned; callbacks are delivered through agent.TaskDispatch, registrations and polls through handlers.(*External).Request",
 			"self/ancestor pivot connects are not generated here (C09); removing an HTTP listener is not exercised (HTTP.Stop always sleeps 5 s)",
 			"histories with restarts at any point: a connect naming a session that is an ancestor of the sender by the STORED rows (possible once a stored parent came back by registration without its link) is not delivered either - on the unchanged tree it stores a cycle that the next start turns into a cyclic Parent chain (C09's subject; shown by TestC10PivCycle)",
 			"for histories with restarts at any point the reference for the parent/child pairs is the sequence of link events (model pmodel in piv_test.go), not the server's Links lists: after such a restart the lists lack the links whose parent was not restored while their rows are still stored",
+			"HTTPS listeners: certificates generated by the server only (the operator's Listener/Add package has no Cert/Key field; paths given in the profile are not stored); where the certificate files go is not part of the oracle (looked at with TestC10CertFiles: always inside <loot>/listener, in its root for names without ASCII letter or digit, shared by names that sanitise to the same string)",
 			"list-valued listener fields contain no empty element and no ', ' (the operator dialog joins and the server splits on ', ')",
 			"database on tmpfs when available; reopening happens in the same process after closing nothing (the server's handle stays open, as after a crash the file is all there is)",
 		},
